@@ -367,6 +367,19 @@ theorem everything_completed_when_close_returns (cfg : Cfg) (hmax : 1 ≤ cfg.ma
     rw [this] at hmem
     cases hmem
 
+/-- **detached_batch_takes_nothing** — a message is appended only to the batch that is attached to its partition writer
+and has not been detached: once a batch is handed to the queue (full, timer, Close) nothing is added to it.  (In the
+source the append loop of writeMessages and the timer goroutine exclude each other through ptw.mutex:
+`C07.events_inside_their_sections`; on traces: monitor `noAddAfterDetach`.) -/
+theorem detached_batch_takes_nothing (cfg : Cfg) (s s' : State) (pw b c i size : Nat)
+    (hs : step cfg s (.add pw b c i size) = some s') :
+    ∃ P B, s.pws pw = some P ∧ s.batches b = some B ∧ P.curr = some b ∧ B.detached = none := by
+  simp only [step, stepAdd] at hs
+  repeat' split at hs
+  all_goals (first | (cases hs; done) | skip)
+  rename_i _ P hP _ B hB _ C hC hg
+  exact ⟨P, B, hP, hB, hg.2.1, hg.2.2.2.2.2.1⟩
+
 /-! ### BatchTimeout is measured from the creation of the batch (timed model: `tick`, `openedAt`, `linger`) -/
 
 /-- **attached_batch_age_bounded** — in every reachable state of a timed run, a batch that is still attached and whose
@@ -426,6 +439,13 @@ theorem defaults_match_source (n : Nat) :
   · subst h; simp
   · have : n > 0 := Nat.pos_of_ne_zero h
     simp [h, this]
+
+/-- **newWriter_copies_options** — the deprecated constructor `NewWriter(WriterConfig)` takes every option the model
+depends on from the WriterConfig field of the same name (regenerated field by field from the Writer literal in
+NewWriter): a Writer built through it has the limits its configuration names. -/
+theorem newWriter_copies_options :
+    ∀ f ∈ ["BatchSize", "BatchBytes", "BatchTimeout", "MaxAttempts", "Async", "Topic", "Balancer", "RequiredAcks",
+      "WriteTimeout", "ReadTimeout"], Gen.newWriterMap.lookup f = some f := by decide
 
 theorem default_limits : Writer.effBatchSize 0 = 100 ∧ Writer.effBatchBytes 0 = 1048576 ∧ Writer.effMaxAttempts 0 = 10 := by
   decide
